@@ -53,9 +53,12 @@ impl TraitFnAnalyzer<'_> {
         analyzer: &mut GenericsAnalyzer,
     ) -> syn::Result<TraitFn> {
         let mut trait_fn = self.analyze(input_fn.input_sig(), analyzer)?;
+        // (a `#![cfg(..)]` at the top of the body disables the fn like a `#[cfg(..)]` in front of it)
+        let body_attrs = leading_inner_attrs(input_fn.fn_body.clone());
         trait_fn.attrs = input_fn
             .fn_attrs
             .iter()
+            .chain(body_attrs.iter())
             .filter_map(|attr| match &attr.meta {
                 meta if meta.path().is_ident("cfg") => Some(attr.clone()),
                 meta => Some(syn::Attribute {
@@ -122,6 +125,30 @@ impl TraitFnAnalyzer<'_> {
             default_body: None,
             fn_generic_arguments,
         })
+    }
+}
+
+/// The inner attributes that a fn body (`{..}`, possibly a `$body:block` fragment) opens with, in outer style
+fn leading_inner_attrs(body: proc_macro2::TokenStream) -> Vec<syn::Attribute> {
+    use syn::parse::Parser;
+    match body.into_iter().next() {
+        Some(proc_macro2::TokenTree::Group(group)) => match group.delimiter() {
+            proc_macro2::Delimiter::None => leading_inner_attrs(group.stream()),
+            proc_macro2::Delimiter::Brace => {
+                let parser = |input: syn::parse::ParseStream| {
+                    let attrs = input.call(syn::Attribute::parse_inner)?;
+                    input.parse::<proc_macro2::TokenStream>()?;
+                    Ok(attrs)
+                };
+                let mut attrs = parser.parse2(group.stream()).unwrap_or_default();
+                for attr in attrs.iter_mut() {
+                    attr.style = syn::AttrStyle::Outer;
+                }
+                attrs
+            }
+            _ => vec![],
+        },
+        _ => vec![],
     }
 }
 
